@@ -4,7 +4,7 @@ CONSTANTS
   MaxChats = 1
   MaxSteps = 99
   GenDepth = 24
-  Ops = {"connect","login","agreed","userlist","close","kick","banadd","wait","restart"}
+  Ops = {"connect","dial","handshake","login","agreed","userlist","close","kick","banadd","wait","restart"}
   Thin = TRUE
 INIT Init
 NEXT Next
